@@ -452,6 +452,7 @@ func (dbcStream) Gen(r *rand.Rand, tier string, idx int) []string {
 	if tier == "thorough" {
 		nmut *= 2
 	}
+	var mutants []string
 	for k := 0; k < nmut; k++ {
 		var t string
 		if r.Intn(3) == 0 {
@@ -459,7 +460,10 @@ func (dbcStream) Gen(r *rand.Rand, tier string, idx int) []string {
 		} else {
 			t = dbcRender(dbcMutateTokens(r, toks), r)
 		}
+		mutants = append(mutants, t)
 		sc = append(sc, dbcParseLine(t, pick(r, hex, hex, !hex)))
 	}
+	// byte-level scanner model (dbc scan lines; generated last: the lines above keep their PRNG draws)
+	sc = append(sc, dbcScanGen(r, tier, text, mutants)...)
 	return sc
 }
